@@ -351,7 +351,7 @@ func runScen(s Scen) (res result) {
 			if !s.Mixed {
 				for _, e := range atk.l.Log() {
 					if e.kind == "bfh" || e.kind == "block" {
-						time.Sleep(2300 * time.Millisecond)
+						waitRoundEnd(V)
 						break
 					}
 				}
@@ -546,6 +546,23 @@ type phase struct {
 	bans  []netsim.BanCall
 	nlog  int // length of the liar's log
 	nvlog int // length of the victim's call log
+}
+
+// waitRoundEnd waits until the victim's syncLoop has started another iteration (it calls History() at the top of
+// each one and runs parallelSync synchronously), i.e. until the sync round in progress is over — under load the
+// round's one-second ticker may take much longer than two ticks.
+func waitRoundEnd(V *netsim.Node) {
+	count := func() int {
+		n := 0
+		for _, c := range V.Rec.Log() {
+			if c.Kind == "history" {
+				n++
+			}
+		}
+		return n
+	}
+	n0 := count()
+	netsim.WaitUntil(12*time.Second, func() bool { return count() >= n0+2 })
 }
 
 func splitHostPort(a string) (string, string, error) {
